@@ -1,7 +1,8 @@
 ----------------------- MODULE Trace_ExtensionChoice -----------------------
 (* Conf validation of the ExtensionChoice decision table against the real JsonRPCChainParser.ParseMsg
    (ETH1; parser with / without the archive extension configured; ExtensionInfo{LatestBlock, ExtensionOverride}).
-   <<"BAD", line, kind>>: bind (request did not parse as intended), exts (attached extensions differ from the
+   <<"BAD", line, kind>>: panic / hang / unclean (the real ParseMsg misbehaved on a well-formed request: C38's own
+   oracle), bind (clean answer but not the intended method / block: a rendering problem), exts (attached extensions differ from the
    table), cu (compute units differ). *)
 EXTENDS ExtensionChoice, IOUtils
 VARIABLE l
@@ -11,7 +12,10 @@ ToSet(s) == {s[i] : i \in 1..Len(s)}
 Report(i, r) ==
   LET out == r.out[1]
       want == Attached(r.in.o, r.in.cfgd, r.in.req, r.in.latest, r.in.rule, r.in.method) IN
-  IF out.err \/ out.panic \/ out.hang \/ out.lat # r.in.req \/ out.api # r.in.method
+  IF out.panic THEN PrintT(<<"BAD", i, "panic">>)
+  ELSE IF out.hang THEN PrintT(<<"BAD", i, "hang">>)
+  ELSE IF ~out.err /\ (out.api = "" \/ out.cu < 1) THEN PrintT(<<"BAD", i, "unclean">>)
+  ELSE IF out.err \/ out.lat # r.in.req \/ out.api # r.in.method
   THEN PrintT(<<"BAD", i, "bind">>)
   ELSE /\ (ToSet(out.exts) = want) \/ PrintT(<<"BAD", i, "exts">>)
        /\ (out.cu = AttachedCU(ToSet(out.exts))) \/ PrintT(<<"BAD", i, "cu">>)
